@@ -228,6 +228,16 @@ func verifDeepCopy(v reflect.Value) reflect.Value {
 			s.Index(i).Set(verifDeepCopy(v.Index(i)))
 		}
 		return s
+	case reflect.Map:
+		if v.IsNil() {
+			return v
+		}
+		m := reflect.MakeMapWithSize(v.Type(), v.Len())
+		it := v.MapRange()
+		for it.Next() {
+			m.SetMapIndex(it.Key(), it.Value())
+		}
+		return m
 	case reflect.Struct:
 		c := reflect.New(v.Type()).Elem()
 		c.Set(v)
